@@ -122,6 +122,44 @@ func steps() []step {
 	node("a-negative-identifier-package", func() *sbom.Node {
 		return &sbom.Node{Id: "a", Name: "na", Identifiers: map[int32]string{-1: "i", 1: "pkg:generic/a@1"}, Hashes: map[int32]string{-7: "h", 3: "aa"}}
 	})
+	// every identifier type and every hash algorithm at once, with distinct values (a serializer that keeps "the first
+	// one it sees" depends on the map iteration order), and the variant with empty values in between
+	node("a-all-identifiers-and-hashes", func() *sbom.Node {
+		n := &sbom.Node{Id: "a", Name: "na", Identifiers: map[int32]string{}, Hashes: map[int32]string{}}
+		for k := range sbom.SoftwareIdentifierType_name {
+			n.Identifiers[k] = fmt.Sprintf("identifier-%d", k)
+		}
+		for k := range sbom.HashAlgorithm_name {
+			n.Hashes[k] = fmt.Sprintf("%02x%02x", k, k+1)
+		}
+		return n
+	})
+	node("a-identifiers-some-empty", func() *sbom.Node {
+		n := &sbom.Node{Id: "a", Name: "na", Identifiers: map[int32]string{}, Hashes: map[int32]string{}}
+		for k := range sbom.SoftwareIdentifierType_name {
+			n.Identifiers[k] = ""
+			if k%2 == 0 {
+				n.Identifiers[k] = fmt.Sprintf("identifier-%d", k)
+			}
+		}
+		for k := range sbom.HashAlgorithm_name {
+			n.Hashes[k] = ""
+			if k%2 == 1 {
+				n.Hashes[k] = fmt.Sprintf("%02x", k)
+			}
+		}
+		return n
+	})
+	node("a-identifiers-other-half-empty", func() *sbom.Node {
+		n := &sbom.Node{Id: "a", Name: "na", Identifiers: map[int32]string{}}
+		for k := range sbom.SoftwareIdentifierType_name {
+			n.Identifiers[k] = ""
+			if k%2 == 1 {
+				n.Identifiers[k] = fmt.Sprintf("identifier-%d", k)
+			}
+		}
+		return n
+	})
 	node("b-empty-person", func() *sbom.Node {
 		return &sbom.Node{Id: "b", Suppliers: []*sbom.Person{{}}, Originators: []*sbom.Person{{Contacts: []*sbom.Person{{}}}}, ExternalReferences: []*sbom.ExternalReference{{}}}
 	})
